@@ -532,9 +532,19 @@ def run_shard(spec, acc, ctx):
                 break
             n = rng.choice([rng.randint(1, 40), rng.randint(1, 8)])
             isz = rng.randint(1, 9)
+            nops = rng.randint(5, 40)
+            if s % 60 == 7:
+                # now and then a long life (hundreds of operations) or a longer array (around 2^8 and beyond)
+                nops = rng.randint(300, 900)
+                acc.count("long_sequences")
+            elif s % 60 == 31:
+                n = rng.choice([255, 256, 257, rng.randint(300, 1200)])
+                acc.count("long_arrays")
             chunk = rng.choice([rng.randint(1, n + 2), 1, n, n + 1, max(1, n - 1), max(1, n // 2)])
+            if n > 100 and chunk < 4:
+                chunk = rng.choice([7, 64, 255, 256, 257])
             params = {"n": n, "item_size": isz, "chunk": chunk}
-            runner.run(params, rng.randint(5, 40), rng, from_list=rng.random() < 0.2)
+            runner.run(params, nops, rng, from_list=rng.random() < 0.2)
             acc.count("cases")
             acc.add("distinct", fp("s", spec["index"], s))
             acc.count("len_not_multiple_of_chunk" if n % chunk else "len_multiple_of_chunk")
